@@ -1,9 +1,10 @@
 #!/bin/bash
-# usage: seedcheck.sh <patch.diff> <ID>...  — applies a seeded change to /repo, runs the checks, reverts.
+# usage: seedcheck.sh <patch.diff (absolute path)> <ID>...  — applies a seeded change to a scratch worktree of
+# /repo HEAD (never to /repo itself), runs the checks there, and removes the worktree.
 P=$1; shift
-cd /repo || exit 2
-if [ -n "$(git status --short)" ]; then echo "/repo not clean"; exit 2; fi
-git apply "$P" || { echo "patch does not apply"; exit 2; }
+W=/tmp/scwt-$$
+git -C /repo worktree add -q --detach $W HEAD || exit 2
+(cd $W && git apply "$P") || { echo "patch does not apply"; git -C /repo worktree remove --force $W; exit 2; }
 cd /verif
-for id in "$@"; do ./run check $id -q --verif /tmp/seedcheck-verif 2>&1 | cut -c1-600; echo "exit[$id]=$?"; done
-git -C /repo checkout -- . ; git -C /repo status --short
+mkdir -p /tmp/seedcheck-verif; cp /verif/known_findings.json /tmp/seedcheck-verif/; for id in "$@"; do ./run check $id -q --repo $W --verif /tmp/seedcheck-verif 2>&1 | cut -c1-600; echo "exit[$id]=$?"; done
+git -C /repo worktree remove --force $W
